@@ -203,7 +203,7 @@ End RunW.
 Definition checkW {T} `{Num T} (cl : T -> T -> bool) (icast : T -> T) (k : caseW T) : bool :=
   let s0 := store_of (w_bufs k) in
   let flg := fun i => nth i (w_flags k) (false, false) in
-  let bdtf := fun i => nth i (w_bdt k) (mkdt 0 false) in
+  let bdtf := fun i => nth i (w_bdt k) (mkdt 0 false 0) in
   match run_wop flg bdtf icast (w_sp k) (w_op k) s0, w_err k with
   | Ok s1, O => forallb (fun i => all2 cl (nth i (w_res k) []) (s1 i)) (w_cmp k)
   | CastErr, S O => true
